@@ -5,21 +5,25 @@
 set -u
 export GOFLAGS=-mod=mod GOPROXY=off GOSUMDB=off GOTOOLCHAIN=local
 ID=$1; WT=$2; PKG0=$3; shift 3; TESTPKGS="$@"
+# the repository's gmtls tests bind fixed ports: each go test run gets its own network namespace (loopback only), so
+# several evaluations can run side by side
+NS=""; if unshare -rn sh -c 'ip link set lo up' >/dev/null 2>&1; then NS="unshare -rn sh -c"; fi
+gotest() { if [ -n "$NS" ]; then unshare -rn sh -c "ip link set lo up; $*"; else sh -c "$*"; fi; }
 for d in $WT/_mut/m*/; do
   n=$(basename $d)
   PKG=$PKG0; if [ "$PKG0" = auto ]; then PKG=$(python3 -c "import json;print(json.load(open('$d/meta.json'))['pkg'])"); fi
   echo "=== $ID $n: $(python3 -c "import json;print(json.load(open('$d/meta.json'))['what'][:150])")"
   cd $WT && git checkout -q -- . && git apply $d/patch.diff || { echo "  patch does not apply"; continue; }
   go build ./... >/dev/null 2>&1 || { echo "  DOES NOT BUILD"; git checkout -q -- .; continue; }
-  t1=$(go test -count=1 $TESTPKGS 2>&1 | grep -c "^FAIL\|^--- FAIL")
+  t1=$(gotest "go test -count=1 $TESTPKGS" 2>&1 | grep -c "^FAIL\|^--- FAIL")
   cp $d/demo_test.go $WT/$PKG/zz_demo_test.go
-  dm=$(cd $WT/$PKG && go test ${DEMOFLAGS:-} -count=1 -run 'Demo|Mut' . 2>&1 | grep -c "^--- FAIL\|^FAIL\|panic:")
+  dm=$(cd $WT/$PKG && gotest "go test ${DEMOFLAGS:-} -count=1 -run 'Demo|Mut' ." 2>&1 | grep -c "^--- FAIL\|^FAIL\|panic:")
   rm -f $WT/$PKG/zz_demo_test.go
   VERIF_REPO=$WT ${VERIF_ROOT:-/verif}/check $ID quick 2>&1 | grep -E "VIOLATION|KNOWN-FINDING|INFRA|OK |FAIL|detail" | cut -c1-260 | head -4
   echo "  check-exit=${PIPESTATUS[0]}"
   git checkout -q -- .
   cp $d/demo_test.go $WT/$PKG/zz_demo_test.go
-  dh=$(cd $WT/$PKG && go test ${DEMOFLAGS:-} -count=1 -run 'Demo|Mut' . 2>&1 | grep -c "^--- FAIL\|^FAIL\|panic:")
+  dh=$(cd $WT/$PKG && gotest "go test ${DEMOFLAGS:-} -count=1 -run 'Demo|Mut' ." 2>&1 | grep -c "^--- FAIL\|^FAIL\|panic:")
   rm -f $WT/$PKG/zz_demo_test.go
   echo "  existing-tests-failures-with-patch=$t1 demo-fails-with-patch=$dm demo-fails-on-HEAD=$dh"
 done
